@@ -310,7 +310,8 @@ def check (params lines : List String) : CaseResult := Id.run do
   let manyMonitors := P.monitorsPerStartAll > 1
   let mut r : CaseResult := {}
   -- ---- lock-step
-  let pinned := scen != "free" || !manyMonitors
+  -- shape `bnd` (boundary listener flows) is outside the completion model's programs: judged by the predicate only
+  let pinned := (scen != "free" || !manyMonitors) && shape != "bnd"
   let mut explainedByLateSub := false
   if pinned then
     let ls := replay P scen 0 toks
